@@ -9,6 +9,7 @@ from __future__ import annotations
 import ast
 from typing import Dict, List, Optional, Set, Tuple
 
+from ..cfg import cfg_of
 from ..model import AnalysisError, Func, RepoModel, call_name, const_str, dotted, is_self_attr, norm, walk_no_nested
 
 SS = "core/stmt_states.py"
@@ -115,55 +116,9 @@ def run(model: RepoModel, rep, tier: str):
                        "summary instances are keyed by it", 4)
 
     # ------------------------------------------------------------------ R1
-    classes = [st] + [c for c in model.module("core/global_stmt_states.py").classes.values()]
-    helpers: Dict[str, Tuple[Func, str]] = {}   # helper name -> (func, mutated parameter)
-    for c in classes:
-        for f in c.methods.values():
-            _, fs = freshness(f)
-            for var, attr, node in mutation_sites(f):
-                if var in f.params and var not in fs:
-                    helpers[f.name] = (f, var)
-    rep.analysed["helpers that mutate a State parameter"] = sorted(helpers)
-    n_sites = 0
-    for c in classes:
-        for f in c.methods.values():
-            fi, fs = freshness(f)
-            for var, attr, node in mutation_sites(f):
-                n_sites += 1
-                key = f"{f.module.rel}::{f.qualname}::`{var}.{attr}` written"
-                if var in fs:
-                    rep.holds("C09.R1", key, f.module.rel, node.lineno, f"`{var}` is created or copied in this function")
-                elif var in f.params:
-                    rep.holds("C09.R1", key, f.module.rel, node.lineno, f"`{var}` is a parameter: obligation moves to the callers (checked below)")
-                elif (f.name, "." + attr) in COW_EXCEPTIONS:
-                    rep.holds("C09.R1", key, f.module.rel, node.lineno, "frozen exception: " + COW_EXCEPTIONS[(f.name, "." + attr)])
-                else:
-                    # a State looked up by an index that is not fresh, or taken from in-states
-                    src = [n for n in walk_no_nested(f.node) if isinstance(n, (ast.Assign, ast.AnnAssign)) and
-                           (isinstance(getattr(n, "targets", [getattr(n, "target", None)])[0], ast.Name) and
-                            getattr(n, "targets", [getattr(n, "target", None)])[0].id == var)]
-                    rep.violation("C09.R1", key, f.module.rel, node.lineno,
-                                  f"{f.qualname} writes `{var}.{attr}` but `{var}` is not created or copied in this function "
-                                  f"(bound by `{norm(src[0]) if src else '?'}`): the State is shared with earlier program points and with every "
-                                  f"other variable that points to it, so an overwritten value is retained / another object observes the write")
-            # calls of mutating helpers must pass fresh states
-            for n in walk_no_nested(f.node):
-                if isinstance(n, ast.Call) and is_self_attr(n.func) and n.func.attr in helpers and f.name != n.func.attr:
-                    hf, hp = helpers[n.func.attr]
-                    idx = hf.params.index(hp) - 1
-                    a = n.args[idx] if idx < len(n.args) else next((k.value for k in n.keywords if k.arg == hp), None)
-                    key = f"{f.module.rel}::{f.qualname}::`{n.func.attr}({norm(a) if a is not None else '?'})`"
-                    if isinstance(a, ast.Name) and (a.id in fs or a.id in f.params and f.name in helpers and helpers[f.name][1] == a.id):
-                        rep.holds("C09.R1", key, f.module.rel, n.lineno, "mutating helper receives a fresh State")
-                    elif isinstance(a, ast.Name) and a.id in f.params:
-                        rep.holds("C09.R1", key, f.module.rel, n.lineno, "forwards its own parameter (obligation moves up)")
-                    elif (f.name, n.func.attr) in COW_EXCEPTIONS:
-                        rep.holds("C09.R1", key, f.module.rel, n.lineno, "frozen exception: " + COW_EXCEPTIONS[(f.name, n.func.attr)])
-                    else:
-                        rep.violation("C09.R1", key, f.module.rel, n.lineno,
-                                      f"{f.qualname} hands `{norm(a) if a is not None else '?'}` to {n.func.attr}, which mutates it in place, but that "
-                                      f"State is not a fresh copy: the mutation is visible at earlier program points")
-    rep.analysed["state mutation sites"] = n_sites
+    classes = [st] + [c for c in model.module("core/global_stmt_states.py").classes.values()] \
+        + [c for c in model.module("core/resolver.py").classes.values() if c.name == "Resolver"]
+    check_copy_on_write(model, rep, "C09.R1", classes)
     # the copy itself: create_copy_of_state_and_add_space copies (does not alias) and registers the copy
     cc = st.methods.get("create_copy_of_state_and_add_space")
     key = f"{SS}::StmtStates.create_copy_of_state_and_add_space::copies and registers"
@@ -308,6 +263,130 @@ def run(model: RepoModel, rep, tier: str):
     from .c08 import check_accumulating_loops
     check_accumulating_loops(model, rep, "C09.R4")
     check_call_site_budget(model, rep, "C09.R6", declare=True)
+    check_ceiling_snapshots(model, rep, "C09.R7", declare=True)
+
+
+def check_copy_on_write(model: RepoModel, rep, RID: str, classes) -> int:
+    helpers: Dict[str, Tuple[Func, str]] = {}   # helper name -> (func, mutated parameter)
+    for c in classes:
+        for f in c.methods.values():
+            _, fs = freshness(f)
+            for var, attr, node in mutation_sites(f):
+                if var in f.params and var not in fs:
+                    helpers[f.name] = (f, var)
+    rep.analysed["helpers that mutate a State parameter"] = sorted(helpers)
+    n_sites = 0
+    for c in classes:
+        for f in c.methods.values():
+            fi, fs = freshness(f)
+            for var, attr, node in mutation_sites(f):
+                n_sites += 1
+                key = f"{f.module.rel}::{f.qualname}::`{var}.{attr}` written"
+                if var in fs:
+                    rep.holds(RID, key, f.module.rel, node.lineno, f"`{var}` is created or copied in this function")
+                elif var in f.params:
+                    rep.holds(RID, key, f.module.rel, node.lineno, f"`{var}` is a parameter: obligation moves to the callers (checked below)")
+                elif (f.name, "." + attr) in COW_EXCEPTIONS:
+                    rep.holds(RID, key, f.module.rel, node.lineno, "frozen exception: " + COW_EXCEPTIONS[(f.name, "." + attr)])
+                else:
+                    # a State looked up by an index that is not fresh, or taken from in-states
+                    src = [n for n in walk_no_nested(f.node) if isinstance(n, (ast.Assign, ast.AnnAssign)) and
+                           (isinstance(getattr(n, "targets", [getattr(n, "target", None)])[0], ast.Name) and
+                            getattr(n, "targets", [getattr(n, "target", None)])[0].id == var)]
+                    rep.violation(RID, key, f.module.rel, node.lineno,
+                                  f"{f.qualname} writes `{var}.{attr}` but `{var}` is not created or copied in this function "
+                                  f"(bound by `{norm(src[0]) if src else '?'}`): the State is shared with earlier program points and with every "
+                                  f"other variable that points to it, so an overwritten value is retained / another object observes the write")
+            # calls of mutating helpers must pass fresh states
+            for n in walk_no_nested(f.node):
+                if isinstance(n, ast.Call) and is_self_attr(n.func) and n.func.attr in helpers and f.name != n.func.attr:
+                    hf, hp = helpers[n.func.attr]
+                    idx = hf.params.index(hp) - 1
+                    a = n.args[idx] if idx < len(n.args) else next((k.value for k in n.keywords if k.arg == hp), None)
+                    key = f"{f.module.rel}::{f.qualname}::`{n.func.attr}({norm(a) if a is not None else '?'})`"
+                    if isinstance(a, ast.Name) and (a.id in fs or a.id in f.params and f.name in helpers and helpers[f.name][1] == a.id):
+                        rep.holds(RID, key, f.module.rel, n.lineno, "mutating helper receives a fresh State")
+                    elif isinstance(a, ast.Name) and a.id in f.params:
+                        rep.holds(RID, key, f.module.rel, n.lineno, "forwards its own parameter (obligation moves up)")
+                    elif (f.name, n.func.attr) in COW_EXCEPTIONS:
+                        rep.holds(RID, key, f.module.rel, n.lineno, "frozen exception: " + COW_EXCEPTIONS[(f.name, n.func.attr)])
+                    else:
+                        rep.violation(RID, key, f.module.rel, n.lineno,
+                                      f"{f.qualname} hands `{norm(a) if a is not None else '?'}` to {n.func.attr}, which mutates it in place, but that "
+                                      f"State is not a fresh copy: the mutation is visible at earlier program points")
+    rep.analysed.setdefault("state mutation sites", 0)
+    rep.analysed["state mutation sites"] += n_sites
+    return n_sites
+
+
+def check_ceiling_snapshots(model: RepoModel, rep, RID: str, declare: bool = False):
+    """The states a statement produces are found as 'everything in the state space above the ceiling recorded before the statement was
+    computed'.  The ceiling therefore has to be recorded before ANY call through which a state can be added for this statement
+    (external/unknown states of the used symbols are created while the inputs are completed): a state created before the snapshot is
+    below the ceiling, is never entered into the statement's out-states and never reaches a later use."""
+    if declare:
+        rep.rule(RID, "new-state detection covers the whole statement: the state-space ceiling is recorded before every call that can add a state", 1)
+    PS = "core/prelim_semantics.py"
+    mod = model.module(PS)
+    ADD = ("add", "append_space_copy", "append", "extend")
+    memo: Dict[str, bool] = {}
+
+    def may_extend(fn: Func, depth=0) -> bool:
+        if fn.ref in memo:
+            return memo[fn.ref]
+        memo[fn.ref] = False
+        res = False
+        for c in walk_no_nested(fn.node):
+            if not isinstance(c, ast.Call):
+                continue
+            if isinstance(c.func, ast.Attribute) and c.func.attr in ADD and isinstance(c.func.value, ast.Attribute) and c.func.value.attr == "symbol_state_space":
+                res = True
+                break
+            if depth < 6 and isinstance(c.func, ast.Attribute) and is_self_attr(c.func) and fn.cls is not None:
+                callee = model.find_method(fn.cls, c.func.attr)
+                if callee is not None and may_extend(callee, depth + 1):
+                    res = True
+                    break
+        memo[fn.ref] = res
+        return res
+    n_inst = 0
+    for f in mod.all_funcs():
+        if f.cls is None:
+            continue
+        cfg = None
+        for st in walk_no_nested(f.node):
+            if not (isinstance(st, ast.Assign) and len(st.targets) == 1 and isinstance(st.targets[0], ast.Name) and isinstance(st.value, ast.Call)
+                    and isinstance(st.value.func, ast.Attribute) and st.value.func.attr == "get_length"
+                    and isinstance(st.value.func.value, ast.Attribute) and st.value.func.value.attr == "symbol_state_space"):
+                continue
+            v = st.targets[0].id
+            passed_on = [c for c in walk_no_nested(f.node) if isinstance(c, ast.Call) and any(isinstance(a, ast.Name) and a.id == v for a in c.args)]
+            if not passed_on:
+                continue
+            cfg = cfg or cfg_of(f.node)
+            sn = cfg.node(st)
+            n_inst += 1
+            key = f"{PS}::{f.qualname}::the ceiling `{v}` is recorded before any state can be added"
+            early = None
+            for n in cfg.g.nodes:
+                if n == sn or cfg.dominates(sn, n) or sn not in cfg.reachable(n):
+                    continue
+                for c in cfg.calls_at(n):
+                    if isinstance(c.func, ast.Attribute) and is_self_attr(c.func):
+                        callee = model.find_method(f.cls, c.func.attr)
+                        if callee is not None and may_extend(callee):
+                            early = early or (c, callee)
+            if early:
+                c, callee = early
+                rep.violation(RID, key, PS, c.lineno,
+                              f"{f.qualname} calls `{norm(c)[:90]}` before it records `{v} = {norm(st.value)}`; {callee.qualname} can add states to "
+                              f"the state space (external / unknown states of the used symbols): those states lie below the ceiling, so "
+                              f"{', '.join(sorted({call_name(p) or '?' for p in passed_on}))} do not see them as produced by this statement and "
+                              f"they never become out-states")
+            else:
+                rep.holds(RID, key, PS, st.lineno, f"no call that can add a state runs before the snapshot; consumers: {sorted({call_name(p) or '?' for p in passed_on})}")
+    if not n_inst:
+        raise AnalysisError("no state-space ceiling snapshot (`x = <frame>.symbol_state_space.get_length()` passed on to a consumer) found in prelim_semantics.py")
 
 
 def check_call_site_budget(model: RepoModel, rep, RID: str, declare: bool = False):
